@@ -124,6 +124,25 @@ def gen_cases(summary, rng, tier, classes, exact, ncases):
         if cs == 1 and sum(len(v) for _, a in objs for v in a.values()) > 400:
             cs = 7
         cases.append(Case(rng.choice(levels), cs, rng.random() < 0.7, objs, hdr))
+    # layout variants: every value 0..4 of every variant selector (apiMajor, flags, *_present), in tiny containers and
+    # followed by further objects - a variant shorter than the default layout makes the parser seek backwards
+    simple = 'CanMessage' if 'CanMessage' in classes else (exact[0] if exact else None)
+    for cn in classes:
+        c = g.cls[cn]
+        for fi in c.get('shapeFields') or []:
+            f = c['fields'][fi]
+            low = f['name'].lower()
+            if f['kind'][0] != 'num' or f['name'] in ('objectSize', 'headerSize', 'headerVersion', 'signature', 'objectType'):
+                continue
+            if any(x in low for x in ('length', 'len', 'count', 'size', 'offset', 'bytes')) or ('reserved' in low and not low.endswith('_present')):
+                continue
+            vals = (0, 1) if low.endswith('_present') else (0, 4, 8, 12) if low == 'flags' else (0, 1, 2, 3, 4)
+            for v in vals:
+                a = api_object(g, summary, cn, rng)
+                a[fi] = codecgen.le(v, f['kind'][1])
+                objs = [(cn, a)] + ([(simple, {})] if simple else []) + [(cn, dict(a))] + ([(simple, {})] if simple else [])
+                for cs in ((4, 7) if tier == 'quick' else (1, 2, 3, 4, 5, 7, 16, 43)):
+                    cases.append(Case(rng.choice([0, 1]), cs, rng.random() < 0.5, objs))
     if tier == 'thorough':
         # container larger than the internal buffer / payloads of several containers
         for cn in ('AppText', 'EthernetFrame'):
